@@ -1,6 +1,8 @@
 /- Lemmas for C07: unfolding of the generated folder arm by arm, the int64 image of a C11 value,
    the wrapper of eval2 as the C11 conversion, one lemma per operator arm. -/
 import ChibiVerif.Model.ConstElab
+set_option linter.unusedSimpArgs false
+set_option linter.unusedVariables false
 
 namespace ChibiVerif.ConstEvalLemmas
 open ChibiVerif.Host ChibiVerif.Gen.ConstEval ChibiVerif.Spec.Const ChibiVerif.ConstElab
@@ -364,5 +366,295 @@ theorem eval2_mkCast (fp : FpEnv) (n : CNode) (t : ITy) (x : Int) (label : Bool)
   · have hk : ((descr t).kind == TypeKind.TY_BOOL) = false := by cases t <;> first | rfl | exact absurd rfl hb
     simp only [hk, Bool.false_eq_true, ite_false, hn, bind, Except.bind, pure, Except.pure]
     exact congrArg Except.ok (wrap_convert t hb x)
+
+/-! ## Host operators on images -/
+
+theorem img_add (x y : Int) : img x + img y = img (x + y) := (BitVec.ofInt_add x y).symm
+theorem img_mul (x y : Int) : img x * img y = img (x * y) := (BitVec.ofInt_mul x y).symm
+theorem img_neg (x : Int) : - img x = img (-x) := BitVec.ofInt_neg.symm
+theorem img_sub (x y : Int) : img x - img y = img (x - y) := by
+  rw [BitVec.sub_eq_add_neg, img_neg, img_add, Int.sub_eq_add_neg]
+
+/-- a 64-bit vector is the image of its signed value -/
+theorem img_of_toInt (b : BitVec 64) : b = img b.toInt := BitVec.ofInt_toInt.symm
+
+theorem img_bmod (x : Int) : img (x.bmod (2 ^ 64)) = img x := by
+  apply img_congr
+  have := @Int.bmod_emod x (2 ^ 64)
+  have e : ((2 ^ 64 : Nat) : Int) = 18446744073709551616 := by decide
+  rw [e] at this; exact this
+
+theorem img_sdiv (x y : Int) (hx : -9223372036854775808 ≤ x ∧ x ≤ 9223372036854775807)
+    (hy : -9223372036854775808 ≤ y ∧ y ≤ 9223372036854775807) :
+    (img x).sdiv (img y) = img (x.tdiv y) := by
+  rw [img_of_toInt ((img x).sdiv (img y)), BitVec.toInt_sdiv, img_toInt x hx.1 hx.2, img_toInt y hy.1 hy.2]
+  exact img_bmod _
+
+theorem img_srem (x y : Int) (hx : -9223372036854775808 ≤ x ∧ x ≤ 9223372036854775807)
+    (hy : -9223372036854775808 ≤ y ∧ y ≤ 9223372036854775807) :
+    (img x).srem (img y) = img (x.tmod y) := by
+  rw [img_of_toInt ((img x).srem (img y)), BitVec.toInt_srem, img_toInt x hx.1 hx.2, img_toInt y hy.1 hy.2]
+
+theorem img_nat (n : Nat) (hn : n ≤ 18446744073709551615) : (img (n : Int)).toNat = n := by
+  have := img_toNat (n : Int) (by omega) (by omega)
+  omega
+
+theorem img_udiv (x y : Int) (hx : 0 ≤ x ∧ x ≤ 18446744073709551615) (hy : 0 ≤ y ∧ y ≤ 18446744073709551615) :
+    img x / img y = img (x.tdiv y) := by
+  obtain ⟨nx, rfl⟩ := Int.eq_ofNat_of_zero_le hx.1
+  obtain ⟨ny, rfl⟩ := Int.eq_ofNat_of_zero_le hy.1
+  apply BitVec.eq_of_toNat_eq
+  rw [BitVec.toNat_udiv, ← Int.ofNat_tdiv, img_nat nx (by omega), img_nat ny (by omega), img_nat]
+  have : nx / ny ≤ nx := Nat.div_le_self _ _
+  omega
+
+theorem img_umod (x y : Int) (hx : 0 ≤ x ∧ x ≤ 18446744073709551615) (hy : 0 ≤ y ∧ y ≤ 18446744073709551615) :
+    img x % img y = img (x.tmod y) := by
+  obtain ⟨nx, rfl⟩ := Int.eq_ofNat_of_zero_le hx.1
+  obtain ⟨ny, rfl⟩ := Int.eq_ofNat_of_zero_le hy.1
+  apply BitVec.eq_of_toNat_eq
+  have e : ((nx : Int) % (ny : Int)) = ((nx % ny : Nat) : Int) := by norm_cast
+  rw [BitVec.toNat_umod, Int.tmod_eq_emod_of_nonneg (by omega), e, img_nat nx (by omega), img_nat ny (by omega), img_nat]
+  have : nx % ny ≤ nx := Nat.mod_le _ _
+  omega
+
+theorem img_shl (x : Int) (n : Nat) (hn : n < 64) : img x <<< n = img (x * 2 ^ n) := by
+  rw [BitVec.shiftLeft_eq_mul_twoPow, ← img_mul]
+  congr 1
+  apply BitVec.eq_of_toNat_eq
+  rw [BitVec.toNat_twoPow]
+  have : ((2 : Int) ^ n) = ((2 ^ n : Nat) : Int) := by simp
+  have lt : 2 ^ n < 2 ^ 64 := Nat.pow_lt_pow_right (by decide) hn
+  rw [this, img_nat _ (by have : (2:Nat) ^ 64 = 18446744073709551616 := by decide
+                          omega)]
+  exact Nat.mod_eq_of_lt lt
+
+theorem img_ushr (x : Int) (n : Nat) (hx : 0 ≤ x ∧ x ≤ 18446744073709551615) : img x >>> n = img (x / 2 ^ n) := by
+  obtain ⟨nx, rfl⟩ := Int.eq_ofNat_of_zero_le hx.1
+  apply BitVec.eq_of_toNat_eq
+  have : ((nx : Int) / 2 ^ n) = ((nx / 2 ^ n : Nat) : Int) := by simp
+  rw [BitVec.toNat_ushiftRight, Nat.shiftRight_eq_div_pow, this, img_nat nx (by omega), img_nat]
+  have : nx / 2 ^ n ≤ nx := Nat.div_le_self _ _
+  omega
+
+theorem img_sshr (x : Int) (n : Nat) (hx : -9223372036854775808 ≤ x ∧ x ≤ 9223372036854775807) :
+    (img x).sshiftRight n = img (x / 2 ^ n) := by
+  rw [img_of_toInt ((img x).sshiftRight n), BitVec.toInt_sshiftRight, img_toInt x hx.1 hx.2, Int.shiftRight_eq_div_pow]
+  simp
+
+
+/-! ## One lemma per operator arm -/
+
+/-- the types that survive promotion: results of the usual arithmetic conversions -/
+def Wide (t : ITy) : Prop := t = .i32 ∨ t = .u32 ∨ t = .i64 ∨ t = .u64
+
+theorem common_wide (a b : ITy) : Wide (ITy.common a b) := by cases a <;> cases b <;> simp [Wide, ITy.common, ITy.promote]
+theorem promote_wide (a : ITy) : Wide a.promote := by cases a <;> simp [Wide, ITy.promote]
+theorem Wide.ne_bool {t : ITy} (h : Wide t) : t ≠ .bool := by rcases h with h | h | h | h <;> subst h <;> decide
+
+theorem arith_convert (t : ITy) (ht : t ≠ .bool) (r v : Int) (h : Spec.Const.arith t r = some v) : v = t.convert r := by
+  unfold Spec.Const.arith at h
+  split at h
+  · split at h
+    · cases h; exact (convert_id t r ‹_›).symm
+    · cases h
+  · cases h
+    cases t <;> simp_all [ITy.convert, ITy.signed, ITy.bits]
+
+/-- the common last step: the raw host result is the image of the mathematical result `r` -/
+theorem arm_result (t : ITy) (ht : t ≠ .bool) (raw : BitVec 64) (r v : Int) (hraw : raw = img r)
+    (hv : Spec.Const.arith t r = some v) : wrapTy (descr t) raw = img v ∧ t.inRange v = true := by
+  have := arith_convert t ht r v hv
+  subst this hraw
+  exact ⟨wrap_convert t ht r, convert_inRange t r⟩
+
+variable (fp : FpEnv) (t : ITy) (l r : CNode) (x y v : Int) (label : Bool)
+
+theorem fold_add (ht : t ≠ .bool)
+    (hl : ∀ lab, eval2 .wrapping fp l lab = .ok (img x)) (hr : ∀ lab, eval2 .wrapping fp r lab = .ok (img y))
+    (hv : binop .add t x y = some v) :
+    eval2 .wrapping fp (bin .ND_ADD (descr t) l r) label = .ok (img v) ∧ t.inRange v = true := by
+  have ⟨h1, h2⟩ := arm_result t ht (img x + img y) (x + y) v (img_add x y) hv
+  refine ⟨?_, h2⟩
+  simp only [bin]; rw [eval2_ADD _ _ _ _ _ _ _ _ _ _ (descr_not_flonum t)]
+  simp only [hl, hr, bind, Except.bind, pure, Except.pure, addS, ovf, h1]
+
+theorem fold_sub (ht : t ≠ .bool)
+    (hl : ∀ lab, eval2 .wrapping fp l lab = .ok (img x)) (hr : ∀ lab, eval2 .wrapping fp r lab = .ok (img y))
+    (hv : binop .sub t x y = some v) :
+    eval2 .wrapping fp (bin .ND_SUB (descr t) l r) label = .ok (img v) ∧ t.inRange v = true := by
+  have ⟨h1, h2⟩ := arm_result t ht (img x - img y) (x - y) v (img_sub x y) hv
+  refine ⟨?_, h2⟩
+  simp only [bin]; rw [eval2_SUB _ _ _ _ _ _ _ _ _ _ (descr_not_flonum t)]
+  simp only [hl, hr, bind, Except.bind, pure, Except.pure, subS, ovf, h1]
+
+theorem fold_mul (ht : t ≠ .bool)
+    (hl : ∀ lab, eval2 .wrapping fp l lab = .ok (img x)) (hr : ∀ lab, eval2 .wrapping fp r lab = .ok (img y))
+    (hv : binop .mul t x y = some v) :
+    eval2 .wrapping fp (bin .ND_MUL (descr t) l r) label = .ok (img v) ∧ t.inRange v = true := by
+  have ⟨h1, h2⟩ := arm_result t ht (img x * img y) (x * y) v (img_mul x y) hv
+  refine ⟨?_, h2⟩
+  simp only [bin]; rw [eval2_MUL _ _ _ _ _ _ _ _ _ _ (descr_not_flonum t)]
+  simp only [hl, hr, bind, Except.bind, pure, Except.pure, mulS, ovf, h1]
+
+
+theorem img_eq_negOne_iff (y : Int) (hy : -9223372036854775808 ≤ y ∧ y ≤ 9223372036854775807) :
+    img y = 18446744073709551615#64 ↔ y = -1 := by
+  constructor
+  · intro h
+    have := congrArg BitVec.toInt h
+    rw [img_toInt y hy.1 hy.2] at this
+    rw [this]; decide
+  · intro h; subst h; decide
+
+theorem beq_false_of_ne {α} [BEq α] [LawfulBEq α] {a b : α} (h : a ≠ b) : (a == b) = false := by
+  simpa using h
+
+variable (t : ITy) (x y : Int)
+
+theorem divmod_div (hw : Wide t) (hx : t.inRange x = true) (hy : t.inRange y = true) (hy0 : y ≠ 0) :
+    divmod .wrapping true (descr t) (img x) (img y) = .ok (img (x.tdiv y)) := by
+  have hyw := inRange_wide t y hy
+  have hz : img y ≠ 0#64 := fun h => hy0 ((img_eq_zero_iff y hyw.1 hyw.2).1 h)
+  have hz' : ¬ (img y = 0) := hz
+  unfold divmod
+  rw [beq_false_of_ne hz]
+  rcases hw with h | h | h | h <;> subst h <;> rng
+  · -- i32
+    simp only [descr, Bool.false_eq_true, ite_false, ite_true]
+    by_cases h1 : y = -1
+    · subst h1
+      simp only [show (img (-1) == 18446744073709551615#64) = true from by decide, ite_true, pure, Except.pure,
+        img_neg, Int.tdiv_neg, Int.tdiv_one]
+    · have hn : img y ≠ 18446744073709551615#64 := fun h => h1 ((img_eq_negOne_iff y (by omega)).1 h)
+      have hn' : img y ≠ -1 := hn
+      rw [beq_false_of_ne hn]
+      simp only [Bool.false_eq_true, ite_false, divS, hz', hn', ↓reduceIte, and_false, img_sdiv x y (by omega) (by omega)]
+  · -- u32
+    simp only [descr, ite_true, divU, hz', ↓reduceIte, img_udiv x y (by omega) (by omega)]
+  · -- i64
+    simp only [descr, Bool.false_eq_true, ite_false, ite_true]
+    by_cases h1 : y = -1
+    · subst h1
+      simp only [show (img (-1) == 18446744073709551615#64) = true from by decide, ite_true, pure, Except.pure,
+        img_neg, Int.tdiv_neg, Int.tdiv_one]
+    · have hn : img y ≠ 18446744073709551615#64 := fun h => h1 ((img_eq_negOne_iff y (by omega)).1 h)
+      have hn' : img y ≠ -1 := hn
+      rw [beq_false_of_ne hn]
+      simp only [Bool.false_eq_true, ite_false, divS, hz', hn', ↓reduceIte, and_false, img_sdiv x y (by omega) (by omega)]
+  · -- u64
+    simp only [descr, ite_true, divU, hz', ↓reduceIte, img_udiv x y (by omega) (by omega)]
+
+theorem divmod_mod (hw : Wide t) (hx : t.inRange x = true) (hy : t.inRange y = true) (hy0 : y ≠ 0) :
+    divmod .wrapping false (descr t) (img x) (img y) = .ok (img (x.tmod y)) := by
+  have hyw := inRange_wide t y hy
+  have hz : img y ≠ 0#64 := fun h => hy0 ((img_eq_zero_iff y hyw.1 hyw.2).1 h)
+  have hz' : ¬ (img y = 0) := hz
+  unfold divmod
+  rw [beq_false_of_ne hz]
+  rcases hw with h | h | h | h <;> subst h <;> rng
+  · simp only [descr, Bool.false_eq_true, ite_false, ite_true]
+    by_cases h1 : y = -1
+    · subst h1
+      simp only [show (img (-1) == 18446744073709551615#64) = true from by decide, ite_true, pure, Except.pure,
+        Int.tmod_neg, Int.tmod_one]; rfl
+    · have hn : img y ≠ 18446744073709551615#64 := fun h => h1 ((img_eq_negOne_iff y (by omega)).1 h)
+      have hn' : img y ≠ -1 := hn
+      rw [beq_false_of_ne hn]
+      simp only [Bool.false_eq_true, ite_false, modS, hz', hn', ↓reduceIte, and_false, img_srem x y (by omega) (by omega)]
+  · simp only [descr, ite_true, modU, hz', ↓reduceIte, Bool.false_eq_true, img_umod x y (by omega) (by omega)]
+  · simp only [descr, Bool.false_eq_true, ite_false, ite_true]
+    by_cases h1 : y = -1
+    · subst h1
+      simp only [show (img (-1) == 18446744073709551615#64) = true from by decide, ite_true, pure, Except.pure,
+        Int.tmod_neg, Int.tmod_one]; rfl
+    · have hn : img y ≠ 18446744073709551615#64 := fun h => h1 ((img_eq_negOne_iff y (by omega)).1 h)
+      have hn' : img y ≠ -1 := hn
+      rw [beq_false_of_ne hn]
+      simp only [Bool.false_eq_true, ite_false, modS, hz', hn', ↓reduceIte, and_false, img_srem x y (by omega) (by omega)]
+  · simp only [descr, ite_true, modU, hz', ↓reduceIte, Bool.false_eq_true, img_umod x y (by omega) (by omega)]
+
+section arms2
+variable (fp : FpEnv) (t : ITy) (l r : CNode) (x y v : Int) (label : Bool)
+
+theorem fold_div (hw : Wide t)
+    (hl : ∀ lab, eval2 .wrapping fp l lab = .ok (img x)) (hr : ∀ lab, eval2 .wrapping fp r lab = .ok (img y))
+    (hx : t.inRange x = true) (hy : t.inRange y = true) (hv : binop .div t x y = some v) :
+    eval2 .wrapping fp (bin .ND_DIV (descr t) l r) label = .ok (img v) ∧ t.inRange v = true := by
+  simp only [binop] at hv
+  split at hv
+  · cases hv
+  · rename_i hy0
+    have ⟨h1, h2⟩ := arm_result t hw.ne_bool (img (x.tdiv y)) (x.tdiv y) v rfl hv
+    refine ⟨?_, h2⟩
+    simp only [bin]; rw [eval2_DIV _ _ _ _ _ _ _ _ _ _ (descr_not_flonum t)]
+    simp only [hl, hr, bind, Except.bind, pure, Except.pure, divmod_div t x y hw hx hy hy0, h1]
+
+theorem tmod_inRange (hw : Wide t) (hx : t.inRange x = true) (hy : t.inRange y = true) : t.inRange (x.tmod y) = true := by
+  have h1 := Int.natAbs_tmod x y
+  have h2 : x.natAbs % y.natAbs ≤ x.natAbs := Nat.mod_le _ _
+  have h3 : 0 ≤ x → 0 ≤ x.tmod y := Int.tmod_nonneg y
+  have h4 : x ≤ 0 → x.tmod y ≤ 0 := by
+    intro hx0
+    have := Int.tmod_nonneg y (show 0 ≤ -x by omega)
+    rw [Int.neg_tmod] at this; omega
+  rcases hw with h | h | h | h <;> subst h <;> rng <;> omega
+
+theorem fold_mod (hw : Wide t)
+    (hl : ∀ lab, eval2 .wrapping fp l lab = .ok (img x)) (hr : ∀ lab, eval2 .wrapping fp r lab = .ok (img y))
+    (hx : t.inRange x = true) (hy : t.inRange y = true) (hv : binop .mod t x y = some v) :
+    eval2 .wrapping fp (bin .ND_MOD (descr t) l r) label = .ok (img v) ∧ t.inRange v = true := by
+  simp only [binop] at hv
+  split at hv
+  · cases hv
+  · rename_i hy0
+    split at hv
+    · cases hv
+    · cases hv
+      have hr' := tmod_inRange t x y hw hx hy
+      refine ⟨?_, hr'⟩
+      simp only [bin]; rw [eval2_MOD _ _ _ _ _ _ _ _ _ _ (descr_not_flonum t)]
+      simp only [hl, hr, bind, Except.bind, pure, Except.pure, divmod_mod t x y hw hx hy hy0,
+        wrap_convert t hw.ne_bool, convert_id t _ hr']
+
+/-- bitwise operators: the raw result is the image of its own signed value, which is what the Spec converts -/
+theorem fold_bitwise (f : BitVec 64 → BitVec 64 → BitVec 64) (ht : t ≠ .bool) :
+    wrapTy (descr t) (f (img x) (img y)) = img (bitwise f t x y) ∧ t.inRange (bitwise f t x y) = true := by
+  unfold bitwise
+  refine ⟨?_, convert_inRange t _⟩
+  rw [← wrap_convert t ht, ← img_of_toInt]
+
+theorem fold_band (ht : t ≠ .bool)
+    (hl : ∀ lab, eval2 .wrapping fp l lab = .ok (img x)) (hr : ∀ lab, eval2 .wrapping fp r lab = .ok (img y))
+    (hv : binop .band t x y = some v) :
+    eval2 .wrapping fp (bin .ND_BITAND (descr t) l r) label = .ok (img v) ∧ t.inRange v = true := by
+  simp only [binop] at hv; cases hv
+  have ⟨h1, h2⟩ := fold_bitwise t x y (· &&& ·) ht
+  refine ⟨?_, h2⟩
+  simp only [bin]; rw [eval2_BITAND _ _ _ _ _ _ _ _ _ _ (descr_not_flonum t)]
+  simp only [hl, hr, bind, Except.bind, pure, Except.pure, h1]
+
+theorem fold_bor (ht : t ≠ .bool)
+    (hl : ∀ lab, eval2 .wrapping fp l lab = .ok (img x)) (hr : ∀ lab, eval2 .wrapping fp r lab = .ok (img y))
+    (hv : binop .bor t x y = some v) :
+    eval2 .wrapping fp (bin .ND_BITOR (descr t) l r) label = .ok (img v) ∧ t.inRange v = true := by
+  simp only [binop] at hv; cases hv
+  have ⟨h1, h2⟩ := fold_bitwise t x y (· ||| ·) ht
+  refine ⟨?_, h2⟩
+  simp only [bin]; rw [eval2_BITOR _ _ _ _ _ _ _ _ _ _ (descr_not_flonum t)]
+  simp only [hl, hr, bind, Except.bind, pure, Except.pure, h1]
+
+theorem fold_bxor (ht : t ≠ .bool)
+    (hl : ∀ lab, eval2 .wrapping fp l lab = .ok (img x)) (hr : ∀ lab, eval2 .wrapping fp r lab = .ok (img y))
+    (hv : binop .bxor t x y = some v) :
+    eval2 .wrapping fp (bin .ND_BITXOR (descr t) l r) label = .ok (img v) ∧ t.inRange v = true := by
+  simp only [binop] at hv; cases hv
+  have ⟨h1, h2⟩ := fold_bitwise t x y (· ^^^ ·) ht
+  refine ⟨?_, h2⟩
+  simp only [bin]; rw [eval2_BITXOR _ _ _ _ _ _ _ _ _ _ (descr_not_flonum t)]
+  simp only [hl, hr, bind, Except.bind, pure, Except.pure, h1]
+
+
+end arms2
 
 end ChibiVerif.ConstEvalLemmas
